@@ -255,6 +255,45 @@ let run_c18 toks =
         let r = Printf.sprintf "exp%d %s" !ne (describe_model_bytes kb) in incr ne; Some r
       | _ -> None) ops
 
+(* the shard manager (stream mgr): shards are the groups with C ops, `key K f` exports under a key, `cap N`, `tgt T`, then the
+   script: `R i`, `A <block>`, `FL`, `qd ..` *)
+let run_mgr toks =
+  let ops = split_ops toks in
+  let groups = List.rev (List.map List.rev (List.fold_left (fun acc op -> match op, acc with
+      | ["=="], _ -> [] :: acc
+      | _, g :: r -> (op :: g) :: r
+      | _, [] -> [[op]]) [[]] ops)) in
+  let shards = Array.of_list (List.filter_map (fun g ->
+      if not (List.exists (fun op -> match op with "C" :: _ -> true | _ -> false) g) then None
+      else begin
+        let m = build_mem g in
+        let key = List.fold_left (fun acc op -> match op with ["key"; k; _] -> Some (bytes_of_hex k) | _ -> acc) None g in
+        Some (match key with
+            | Some k -> (k, keyed_cass k m.ms_cass)
+            | None -> (zero_hash, m.ms_cass))
+      end) groups) in
+  let cap = List.fold_left (fun acc op -> match op with ["cap"; n] -> n_of_string n | _ -> acc) (n_of_string "67108864") ops in
+  let tgt = List.fold_left (fun acc op -> match op with ["tgt"; n] -> n_of_string n | _ -> acc) (n_of_string "67108864") ops in
+  let g = ref mgr0 and nq = ref 0 in
+  let step o = g := mgr_step size_replace_aware cap tgt !g o in
+  ("cap=" ^ dec_n cap ^ " tgt=" ^ dec_n tgt) :: List.filter_map (fun op -> match op with
+      | ["R"; i] ->
+        let i = int_of_string i in
+        if i < Array.length shards then begin
+          let (k, cass) = shards.(i) in
+          (* the shard's identity: 32 bytes made from its index (two groups never serialize to the same bytes in generated cases) *)
+          step (MRegister { sh_hash = List.init 32 (fun _ -> n_of_int i); sh_key = k; sh_cass = cass }) end;
+        None
+      | "A" :: _ -> step (MAddCas (parse_cas_op op)); None
+      | ["FL"] -> step MFlush; None
+      | ["qd"; l] ->
+        let qs = if l = "-" then [] else List.map bytes_of_hex (String.split_on_char ',' l) in
+        let r = (match mgr_dedup !g qs with
+            | Found a -> dump_seg_res a
+            | _ -> "err") in
+        let s = Printf.sprintf "qd%d %s" !nq r in incr nq; Some s
+      | _ -> None) ops
+
 (* ------------------------------------------------------------------------- xorbs *)
 let key_of (l : n list) = str_of_bytes l
 let scheme_of = function "none" -> Some N0 | "lz4" -> Some (n_of_int 1) | "bg4" -> Some (n_of_int 2) | "auto" -> None | _ -> failwith "scheme"
@@ -881,6 +920,7 @@ let () =
              | "dd" -> run_dd toks
              | "cache" -> run_cache toks
              | "crash" -> run_crash toks
+             | "mgr" -> run_mgr toks
              | "sf" -> run_sf toks
              | "recon" -> run_recon toks
              | "upl" -> run_upl toks
